@@ -119,7 +119,7 @@ def eval_header_decode(repo, f, data_items, code, api, decisions=None):
     return ev
 
 
-def check_header_decode(ctx, rule, cls_name, meth_name, api):
+def check_header_decode(ctx, rule, cls_name, meth_name, api, require_all_accepted=True):
     repo = ctx.repo
     f = repo.method(cls_name, meth_name, inherited=False)
     ctx.touch(f)
@@ -137,11 +137,13 @@ def check_header_decode(ctx, rule, cls_name, meth_name, api):
             ctx.ob(rule, q, False, f"item header decoding: {exc}", key=f"layout n={n}", where=f.where)
             continue
         raises = [(log, o) for log, o in outcomes if o[0] == "raise"]
-        ctx.ob(rule, q, not raises, f"a header with {n} length byte(s) is accepted for every value of the length bytes (non-minimal encodings included)" if not raises else
-               f"a header with {n} length byte(s) is rejected depending on the length value ({'; '.join(raises[0][0])} -> {raises[0][1][1]}): valid E5 items that use more length bytes than necessary cannot be decoded",
-               key=f"accepts n={n}", where=f.where)
+        if require_all_accepted:
+            ctx.ob(rule, q, not raises,
+                   f"a header with {n} length byte(s) is accepted for every value of the length bytes (non-minimal encodings included)" if not raises else
+                   f"a header with {n} length byte(s) is rejected depending on the length value ({'; '.join(raises[0][0])} -> {raises[0][1][1]}): valid E5 items that use more length bytes than necessary cannot be decoded",
+                   key=f"accepts n={n}", where=f.where)
         good = [o for log, o in outcomes if o[0] == "return"]
-        if not good or len(outcomes) != 1 and raises:
+        if not good:
             continue
         val = good[0][1]
         if api == "variables":
@@ -209,6 +211,7 @@ def check_roundtrip(ctx, rule, enc_cls, enc_meth, code_attr, dec_cls, dec_meth, 
             continue
         # the decoder must read n from the encoded format byte: its low two bits are constants here
         dv = eval_header_decode(repo, fd, list(hdr.items) + [bits.SymInt.field("pad", 8)], -1, api)
+        dv.field_ranges = {"length": (lo, hi)}
         try:
             val = dv.run()
         except (bits.RaiseOutcome, bits.NeedDecision, AnalysisError) as exc:
